@@ -54,6 +54,11 @@ func generate(w *mon.W) {
 	for _, s := range gen.Seeds() {
 		do(s, nil)
 	}
+	for _, kind := range gen.WideKinds {
+		for _, n := range gen.WideSizes {
+			do(Print(gen.Wide(kind, n), Layout{Mode: 0}).Src, nil)
+		}
+	}
 	rng := gen.RNG(w.Seed, "c05")
 	// typed expression programs
 	n := w.Pick(6_000, 200_000)
